@@ -51,6 +51,16 @@ def ringAdd (r : Ring) (ivl : Int) (ts : Int) : Ring × Bool :=
   let tail := r'.current
   (r', decide (tail > 0) && decide (ts - tail ≤ ivl))
 
+/-- Verdicts of a stamp sequence on the concrete ring. -/
+def ringRun (ivl : Int) : Ring → List Int → List Bool
+  | _, [] => []
+  | r, t :: ts => (ringAdd r ivl t).2 :: ringRun ivl (ringAdd r ivl t).1 ts
+
+/-- Verdicts of a stamp sequence on the history model. -/
+def ctrRun : Counter → List Int → List Bool
+  | _, [] => []
+  | c, t :: ts => (c.add t).2 :: ctrRun (c.add t).1 ts
+
 /-- Sliding-window-log specification: at least `num` earlier events lie within
 the closed window `[ts - ivl, ts]`. -/
 def aboveSpec (num : Nat) (ivl : Int) (hist : List Int) (ts : Int) : Bool :=
@@ -278,5 +288,37 @@ def runK (c : Cfg) (k : Key) : St → List Ev → List Verdict
   | s, e :: r =>
     let p := isRateLimited c s e.now e.addr e.qtype
     if evKey c e = k then p.2 :: runK c k p.1 r else runK c k p.1 r
+
+/-! ## Window-log specification of the whole limiter -/
+
+/-- Abstract per-bucket state: the stamps counted so far (most recent first) and the number of
+times the bucket went over its limit. -/
+abbrev Spec := Key → List Int × Nat
+
+def Spec.empty : Spec := fun _ => ([], 0)
+
+def famCountK (c : Cfg) (k : Key) : Nat := if k.is4 then c.v4count else c.v6count
+def famIvlK (c : Cfg) (k : Key) : Int := if k.is4 then c.v4ivl else c.v6ivl
+
+/-- One event against the specification: drop ⇔ ANY-refusal, or the bucket is in backoff, or at
+least `limit` earlier counted events of the bucket lie within the closed window. -/
+def specStep (c : Cfg) (sp : Spec) (e : Ev) : Spec × Verdict :=
+  if c.refuseAny && e.qtype == qtypeANY then (sp, .drop)
+  else if allowed c e.addr then (sp, .allowlisted)
+  else if decide (0 < (sp (evKey c e)).2 ∧ c.count ≤ (sp (evKey c e)).2) then (sp, .drop)
+  else
+    let ab := aboveSpec (famCountK c (evKey c e)) (famIvlK c (evKey c e)) (sp (evKey c e)).1 e.now
+    (fun k => if k = evKey c e then (e.now :: (sp (evKey c e)).1, (sp (evKey c e)).2 + (if ab then 1 else 0))
+              else sp k,
+     if ab then .drop else .pass)
+
+def specRun (c : Cfg) : Spec → List Ev → List Verdict
+  | _, [] => []
+  | sp, e :: r => (specStep c sp e).2 :: specRun c (specStep c sp e).1 r
+
+/-- Event times are positive and non-decreasing, starting from `T`. -/
+def Chain : Int → List Ev → Prop
+  | _, [] => True
+  | T, e :: r => 0 < e.now ∧ T ≤ e.now ∧ Chain e.now r
 
 end Agd.Ratelimit
